@@ -1,11 +1,14 @@
 package props
 
 import (
+	"errors"
 	"fmt"
 	"math/rand"
 	"net"
 	"os"
 	"strings"
+	"sync"
+	"sync/atomic"
 	"time"
 
 	"verifharness/lab"
@@ -180,7 +183,7 @@ func c14Expiry(c *vk.Ctx, r *rand.Rand) bool {
 				return
 			}
 			defer cl.Close()
-			scen := pick(cr, []string{"non-dns-burst-then-idle", "single-non-dns", "dns-then-non-dns", "fast-close", "no-fast-close/reply-from-other-port-first", "no-fast-close/two-queries", "no-fast-close/non-dns-first"})
+			scen := pick(cr, []string{"non-dns-burst-then-idle", "single-non-dns", "dns-then-non-dns", "fast-close", "no-fast-close/reply-from-other-port-first", "no-fast-close/two-queries", "no-fast-close/non-dns-first", "dns-reply-races-second-datagram", "first-write-fails"})
 			c.Progress("C14 expiry client=%d scenario=%s timeout=%s", ci, scen, natTimeout)
 			var sends []c14Send
 			var sock *NatSock
@@ -195,6 +198,19 @@ func c14Expiry(c *vk.Ctx, r *rand.Rand) bool {
 			}
 			ok := true
 			expectFast := false
+			// scenarios that withhold DNS answers get a DNS server of their own (another address, port 53),
+			// so that concurrent clients do not release each other's answers
+			myDNS := w.dns53
+			if strings.HasPrefix(scen, "no-fast-close/two") || scen == "dns-reply-races-second-datagram" {
+				t, err := startUDPTarget("dns53-private", net.IPv4(45, 68, byte(c.Batch), byte(100+ci)).To4(), 53)
+				if err != nil {
+					c.Inconclusive("private DNS target: " + err.Error())
+					results <- true
+					return
+				}
+				myDNS = t
+				defer t.Stop()
+			}
 			switch scen {
 			case "non-dns-burst-then-idle":
 				for i := 0; i < 2+cr.Intn(4) && ok; i++ {
@@ -218,11 +234,100 @@ func c14Expiry(c *vk.Ctx, r *rand.Rand) bool {
 					w.dns53.Send(replyPayload(nextID(c.Batch), 1, 30), ua)
 				}
 			case "no-fast-close/two-queries":
-				w.dns53.SetHold(true)
-				ok = send(w.dns53, 1) && send(w.dns53, 1)
-				w.dns53.SetHold(false)
+				myDNS.SetHold(true)
+				ok = send(myDNS, 1) && send(myDNS, 1)
+				myDNS.SetHold(false)
 			case "no-fast-close/non-dns-first":
 				ok = send(w.other, 0) && send(w.dns53, 1)
+			case "dns-reply-races-second-datagram":
+				// Forced interleaving (hook H2): the DNS answer is released exactly when the server has
+				// started to handle the client's SECOND datagram (it is inside SetReadDeadline for it).
+				// Two client datagrams exist by then, so this is not "only one DNS query": no fast close.
+				myDNS.SetHold(true)
+				ok = send(myDNS, 1)
+				if ok && sock != nil {
+					var once sync.Once
+					var fired atomic.Bool
+					sock.mu.Lock()
+					sock.OnSetDeadline = func(call int, dl time.Time) {
+						if dl.After(time.Now().Add(5 * time.Millisecond)) { // a write-driven deadline
+							once.Do(func() {
+								fired.Store(true)
+								myDNS.SetHold(false)              // the answer arrives now ...
+								time.Sleep(60 * time.Millisecond) // ... and is read while the write is in progress
+							})
+						}
+					}
+					sock.mu.Unlock()
+					// the second datagram is a DNS query too: it extends the deadline (now + 17 s), so the
+					// server does call SetReadDeadline while handling it
+					ok = send(myDNS, 0)
+					sock.mu.Lock()
+					sock.OnSetDeadline = nil
+					sock.mu.Unlock()
+					if fired.Load() {
+						c.Count("forced_dns_reply_during_second_write", 1)
+					}
+				}
+				myDNS.SetHold(false)
+			case "first-write-fails":
+				// the very first forward of a new association fails in the socket write
+				w.rig.Nat.mu.Lock()
+				prevNew := w.rig.Nat.OnNew
+				mine := cl.Addr.String()
+				_ = mine
+				w.rig.Nat.OnNew = func(s *NatSock) {
+					n := 0
+					s.FailWrite = func(dst net.Addr, l int) error {
+						n++
+						if n == 1 && strings.HasSuffix(dst.String(), ":7003") {
+							return errors.New("injected: first write fails")
+						}
+						return nil
+					}
+					if prevNew != nil {
+						prevNew(s)
+					}
+				}
+				w.rig.Nat.mu.Unlock()
+				before := len(w.rig.Nat.All())
+				st := c14Send{T: time.Now()}
+				dst := &net.UDPAddr{IP: w.other.Addr.IP, Port: 7003} // marks the injected case
+				cl.Send(ssUDP(cl.Key, randBytes(cr, cl.Key.Codec().C.SaltSize), sscodecUDPAddr(dst), mkUDPPayload(nextID(c.Batch), 0, 0, 30)), w.rig.Addr4())
+				// the association exists although nothing was forwarded: it must still expire and be reclaimed
+				var fs *NatSock
+				deadline := time.Now().Add(udpB)
+				for fs == nil && time.Now().Before(deadline) {
+					for _, s2 := range w.rig.Nat.All()[min(before, len(w.rig.Nat.All())):] {
+						for _, e := range s2.Snap() {
+							if e.Kind == "writeTo" && e.Err != "" {
+								fs = s2
+							}
+						}
+					}
+					time.Sleep(time.Millisecond)
+				}
+				as := w.rig.Rec.ByClient(cl.Addr.String())
+				c.Eval("expiry|" + scen)
+				if fs == nil || len(as) != 1 {
+					c.Inconclusive("first-write-fails: injected failure not observed")
+					results <- true
+					return
+				}
+				closed, nClose, nRem := waitReclaimed(fs, as[0], natTimeout+udpB)
+				if nClose != 1 || nRem != 1 {
+					c.Violation("C14/association-with-failed-first-write-never-reclaimed", map[string]any{"socket_closes": nClose, "removals_reported": nRem, "timeout": natTimeout.String()})
+					results <- false
+					return
+				}
+				if closed.Before(st.T.Add(natTimeout)) {
+					c.Violation("C14/association-closed-before-timeout", map[string]any{"scenario": scen, "closed_after": closed.Sub(st.T).String()})
+					results <- false
+					return
+				}
+				c.Count("failed_first_write_reclaimed", 1)
+				results <- true
+				return
 			}
 			if !ok || sock == nil {
 				results <- ok
@@ -242,7 +347,11 @@ func c14Expiry(c *vk.Ctx, r *rand.Rand) bool {
 				closed, nClose, nRem := waitReclaimed(sock, as[0], udpB)
 				c.Eval("expiry|" + scen)
 				if nClose != 1 || nRem != 1 {
-					c.Violation("C14/fast-close-did-not-reclaim-association", map[string]any{"closes": nClose, "removals_reported": nRem, "scenario": scen})
+					var lines []string
+					for _, e := range sock.Snap() {
+						lines = append(lines, fmt.Sprintf("%s %s dl=%v %s %s", e.T.Format("05.000"), e.Kind, e.DL.Sub(e.T).Round(time.Millisecond), e.Addr, e.Err))
+					}
+					c.Violation("C14/fast-close-did-not-reclaim-association", map[string]any{"closes": nClose, "removals_reported": nRem, "scenario": scen, "h2_log": lines, "client_got": cl.Count(), "dns53_received": w.dns53.Count(), "dns53_replies_sent": len(w.dns53.SentTo), "dns53_hold": w.dns53.hold, "dns53_held": len(w.dns53.held)})
 					results <- false
 					return
 				}
